@@ -62,11 +62,14 @@ def run(rep, tier, rng):
     hists = [list(t) for k in range(0, L + 1) for t in itertools.product(alphabet, repeat=k)]
     cases, meta = [], []
     codes = shapes.ALL_CODES if tier == "thorough" else [shapes.ALL_CODES[i] for i in (0, 4, 7, 9, 12)]
-    for code in codes:
-        a = shapes.gen_ctor(rng, code, "mixed", True, 1, 2)
-        b = shapes.gen_ctor(rng, code, "mixed", True, 3, 4)
+    variants = [(code, "mixed") for code in codes] + [(code, "nom") for code in shapes.ALL_CODES if shapes.dim_of(code) >= 3]
+    for code, prof in variants:
+        a = shapes.gen_ctor(rng, code, prof, True, 1, 2)
+        b = shapes.gen_ctor(rng, code, prof, True, 3, 4)
         x = shapes.gen_ctor(rng, rng.choice([t for t in shapes.ALL_CODES if t != code]), "small", True, 1, 2)
         for h in hists:
+            if prof == "nom" and (len(h) > 3 or any(ch in "mt" for ch in h)):
+                continue                           # measured types with every measure = NO_DATA: short clean histories
             if tier != "thorough" and len(h) == L and rng.random() < 0.6:
                 continue
             calls = [(0, a) if ch == "a" else (0, b) if ch == "b" else (0, x) if ch == "x" else (1, a) if ch == "m" else (2, b)
@@ -81,7 +84,8 @@ def run(rep, tier, rng):
     meta.append((["a"] * 1030, big, [("count",), ("it", -1)], 1))
     clean = [i for i, m in enumerate(meta) if not any(ch in "mt" for ch in m[0])]
     rep.cov["rule"] = ("exhaustive histories over {pair a, pair b (other size), pair with a shape of another type, pair whose row "
-                       "misses the field, pair whose row has a value of the wrong type}^<=%d x %d types through the real Writer, "
+                       "misses the field, pair whose row has a value of the wrong type}^<=%d x %d types through the real Writer "
+                       "(and, for the 9 measured types, shapes whose every measure is NO_DATA) through "
                        "the real dbase TableWriter/Reader and the real Reader (in-memory destinations; rows carry their call "
                        "index), plus one history of 1030 pairs; entry counts read off the three real files; reader ops {count, "
                        "iterate all, seek, iterate 1, iterate all}; histories without rejected rows are compared with the "
